@@ -437,6 +437,34 @@ pub struct HSpec {
     pub digests: Option<Vec<Vec<u8>>>,
     /// drop the last element of the FILEMODES array (arrays of different lengths)
     pub short_modes: bool,
+    /// archive entries are newc entries named after the header path ("." + path, or the plain path when it
+    /// is relative) and `files()` looks the file up by name; default: stripped entries (`07070X` + file
+    /// index), so that entry i belongs to header file i whatever the paths are (duplicates included)
+    pub named: bool,
+}
+
+pub fn stripped_entry(idx: u32, data: &[u8]) -> Vec<u8> {
+    let mut v = b"07070X".to_vec();
+    v.extend_from_slice(format!("{:08x}", idx).as_bytes());
+    v.extend_from_slice(&[0, 0]);
+    v.extend_from_slice(data);
+    while v.len() % 4 != 0 {
+        v.push(0);
+    }
+    v
+}
+
+/// the name `files()` resolves to header file `f`: `get_file_paths` joins directory and base name
+fn entry_name(s: &HSpec, f: &HFile, i: usize) -> Vec<u8> {
+    use std::os::unix::ffi::OsStrExt;
+    match s.dirnames.get(f.dir_index as usize) {
+        Some(d) => {
+            let p = std::path::Path::new(std::ffi::OsStr::from_bytes(d)).join(std::ffi::OsStr::from_bytes(&f.base));
+            let p = p.as_os_str().as_bytes();
+            if p.starts_with(b"/") { [&b"."[..], p].concat() } else { p.to_vec() }
+        }
+        None => format!("./f{}", i).into_bytes(),
+    }
 }
 
 pub fn cpio_entry(name: &[u8], mode: u32, data: &[u8]) -> Vec<u8> {
@@ -490,7 +518,11 @@ pub fn hostile_pkg(s: &HSpec) -> Vec<u8> {
     }
     let mut payload = Vec::new();
     for (i, f) in s.files.iter().enumerate() {
-        payload.extend(cpio_entry(format!("./f{}", i).as_bytes(), f.mode as u32, &f.content));
+        if s.named {
+            payload.extend(cpio_entry(&entry_name(s, f, i), f.mode as u32, &f.content));
+        } else {
+            payload.extend(stripped_entry(i as u32, &f.content));
+        }
     }
     payload.extend(cpio_entry(b"TRAILER!!!", 0, &[]));
     if let Some(k) = s.payload_cut {
@@ -581,7 +613,9 @@ pub fn hostile_families() -> Vec<(&'static str, HSpec)> {
         ("no-files", hs(&[], vec![])),
     ];
     // structurally odd packages
-    let base = hs(&["/", "/a/"], vec![hf(0, "f", r, "", "hello"), hf(1, "g", REG | 0o755, "", "world!!")]);
+    // (named entries: "./f" and "./a/g" give 116-byte entry headers, which the cut offsets below assume)
+    let mut base = hs(&["/", "/a/"], vec![hf(0, "f", r, "", "hello"), hf(1, "g", REG | 0o755, "", "world!!")]);
+    base.named = true;
     let mut s = base.clone(); s.omit = vec![1118]; v.push(("omit-dirnames", s));
     let mut s = base.clone(); s.omit = vec![1030]; v.push(("omit-modes", s));
     let mut s = base.clone(); s.omit = vec![1036]; v.push(("omit-linktos", s));
@@ -597,7 +631,7 @@ pub fn hostile_families() -> Vec<(&'static str, HSpec)> {
     let mut s = base.clone(); s.compressor = Some(b("lz4")); v.push(("compressor-unknown", s));
     let mut s = base.clone(); s.digests = Some(vec![b("abc"), vec![]]); v.push(("digest-bad", s));
     let mut s = base.clone(); s.digests = Some(vec![vec![b'0'; 32], vec![b'f'; 32]]); v.push(("digest-md5", s));
-    let mut s = hs(&["/"], vec![hf(0, "f", r, "", "abcd"), hf(0, "g", r, "", "efgh")]); s.payload_cut = Some(118); v.push(("payload-cut-in-data-aligned", s));
+    let mut s = hs(&["/"], vec![hf(0, "f", r, "", "abcd"), hf(0, "g", r, "", "efgh")]); s.payload_cut = Some(118); s.named = true; v.push(("payload-cut-in-data-aligned", s));
     v.push(("benign-hand", base));
     v
 }
@@ -698,6 +732,11 @@ pub fn gen(ctx: &mut Ctx) {
         // the hostile families, one by one
         for (_, spec) in hostile_families() {
             ctx.req(&request(&hostile_pkg(&spec), None, "/target", &jail));
+            // the same with the other kind of archive entries (named after the header paths and looked up
+            // by name / stripped and looked up by index)
+            let mut twin = spec.clone();
+            twin.named = !spec.named;
+            ctx.req(&request(&hostile_pkg(&twin), None, "/target", &jail));
         }
         // jail variants: the destination exists already / has no parent / is nested
         let benign = hostile_pkg(&hs(&["/", "/a/"], vec![hf(0, "f", REG | 0o644, "", "hello"), hf(1, "g", REG | 0o755, "", "world")]));
@@ -765,7 +804,8 @@ pub fn gen(ctx: &mut Ctx) {
     }
     let n_hostile = ctx.q(60u64, 1700) / sn;
     for i in 0..n_hostile {
-        let s = if i % 3 == 2 { rand_link_attack(&mut ctx.rng) } else { rand_hostile(&mut ctx.rng) };
+        let mut s = if i % 3 == 2 { rand_link_attack(&mut ctx.rng) } else { rand_hostile(&mut ctx.rng) };
+        s.named = i % 4 == 1;
         ctx.req(&request(&hostile_pkg(&s), None, "/target", &jail));
     }
 }
